@@ -60,8 +60,17 @@ const DERIVES: &[&str] = &[
 ];
 const SERVICE_NAMES: &[&str] = &["Petstore", "PetStore", "pet store", "acme", "My API 2", "OpenWeatherMap", "x"];
 
-pub fn gen_cfg(rng: &mut Rng, hard: bool) -> Cfg {
-    let name = if hard { SERVICE_NAMES[rng.below(SERVICE_NAMES.len())] } else { "Petstore" };
+/// service names whose package name is a Rust keyword (open finding C01-service-name-keyword): wild profile only
+const KEYWORD_SERVICE_NAMES: &[&str] = &["Type", "match", "Async"];
+
+pub fn gen_cfg(rng: &mut Rng, hard: bool, wild: bool) -> Cfg {
+    let name = if wild && rng.chance(1, 12) {
+        KEYWORD_SERVICE_NAMES[rng.below(KEYWORD_SERVICE_NAMES.len())]
+    } else if hard {
+        SERVICE_NAMES[rng.below(SERVICE_NAMES.len())]
+    } else {
+        "Petstore"
+    };
     let mut derives = vec![];
     if hard && rng.chance(1, 2) {
         for _ in 0..rng.below(5) {
@@ -94,7 +103,7 @@ fn classify_cli(stderr: &str, signal: Option<i32>) -> String {
 }
 
 pub fn gen_cfg_pub(rng: &mut Rng, hard: bool) -> Cfg {
-    gen_cfg(rng, hard)
+    gen_cfg(rng, hard, false)
 }
 pub fn cfg_sexp_pub(c: &Cfg) -> String {
     cfg_sexp(c)
@@ -129,7 +138,7 @@ pub fn cmd_emit(args: &[String]) {
     }
     for i in 0..n {
         let s = gen_spec(&mut rng, &prof);
-        let c = gen_cfg(&mut rng, prof.hard_names);
+        let c = gen_cfg(&mut rng, prof.hard_names, prof.wild);
         specs.push((shard * 100000 + i, s, c));
     }
     for (id, spec, cfg) in &specs {
@@ -225,7 +234,7 @@ pub fn cmd_emit_crates(args: &[String]) {
     }
     for i in 0..n {
         let s = gen_spec(&mut rng, &prof);
-        let mut c = gen_cfg(&mut rng, prof.hard_names);
+        let mut c = gen_cfg(&mut rng, prof.hard_names, false);
         // derive paths would need their crates; the compile layer keeps to derives available everywhere
         c.derives.retain(|d| ["PartialEq", "  PartialEq  "].contains(&d.as_str()));
         c.derives.truncate(1);
